@@ -279,6 +279,10 @@ IDIOMS: list[tuple[int, list[tuple[str, str]], str, dict[str, Any]]] = [
     (188, [("s", "str")], 'return s[:-4] if s.endswith(".txt") else s', {}),
     (188, [("s", "str")], 'if s.startswith("pre_"):\n    s = s[4:]\nreturn s', {}),
     (188, [("s", "str")], 'if s.endswith(".txt"):\n    s = s[:-4]\nreturn s', {}),
+    # the affix is a variable: it may be empty (`s[:-0]` is "", `s[len(""):]` is s)
+    (188, [("s", "str"), ("t", "str")], "return s[len(t):] if s.startswith(t) else s", {}),
+    (188, [("s", "str"), ("t", "str")], "return s[:-len(t)] if s.endswith(t) else s", {}),
+    (188, [("s", "str"), ("t", "str")], "if s.endswith(t):\n    s = s[:-len(t)]\nreturn s", {}),
     (190, [("s", "str")], "return list(filter(lambda c0: c0.isdigit(), s))", {}),
     (190, [("words", "list[str]")], "return list(map(lambda c0: c0.upper(), words))", {}),
     (191, [("p", "object")], "return p in {True, False}", {}),
@@ -664,16 +668,31 @@ def run(ctx) -> None:
 ANN = {None: "int", "int": "int", "bool": "bool", "float": "float", "str": "str", "list": "list[int]", "tuple": "tuple[int, ...]", "type(None)": "None"}
 
 
-def model_pools() -> dict[Any, list[Any]]:
+def model_pools(rng: Any = None, extra: int = 0) -> dict[Any, list[Any]]:
+    """value pools per declared operand class of the Lean rules; with `rng`, `extra` random ints (up to 70 bits, both signs), strings over
+    a small alphabet (so that prefixes / suffixes / repeated occurrences are frequent) and int lists are added to the fixed boundary values"""
+    pools = _fixed_model_pools()
+    if rng is not None:
+        for _ in range(extra):
+            pools["int"].append(rng.choice([-1, 1]) * rng.getrandbits(rng.choice([4, 9, 17, 33, 70])))
+            pools["str"].append("".join(rng.choice("ab1") for _ in range(rng.randrange(0, 7))))
+            pools["list"].append([rng.randrange(-3, 4) for _ in range(rng.randrange(0, 6))])
+    return pools
+
+
+def _fixed_model_pools() -> dict[Any, list[Any]]:
     scal = [None, True, False, -1, 0, 1, 2, "", "a", "b", "ab", 0.0, -0.0, 1.0, 2.0, "NAN"]
     return {
         None: scal,
-        "int": [-2, -1, 0, 1, 2, 5],
+        # negative / zero / powers of two and their neighbours / multi-digit in every radix (bin, oct, hex, bit_count)
+        "int": [-2, -1, 0, 1, 2, 5, 7, 8, 10, 255, 256, -255, 1023, -4096, 3735928559],
         "bool": [True, False],
-        "float": [0.0, -0.0, 1.0, -2.0, "NAN"],
-        "str": ["", "a", "b", "ab", "ba"],
-        "list": [[], [1], [1, 2], [2, 1], [2, 2, 1], [0], [-1, 3, 3]],
-        "tuple": [(), (1,), (2, 1), (0,)],
+        "float": [0.0, -0.0, 1.0, -2.0, "NAN", 1e15, -123456.0],
+        # prefixes / suffixes / repetitions of each other, the empty string, text containing the digit 1
+        "str": ["", "a", "b", "ab", "ba", "aba", "abab", "aab", "1", "0b11"],
+        # int lists, and lists with ties between equal but distinguishable items (1 / True / 1.0, 0 / False)
+        "list": [[], [1], [1, 2], [2, 1], [2, 2, 1], [0], [-1, 3, 3], [1, True], [True, 1], [0, False, -1], [1.0, 1, 2], [2, True, 1, 2.0]],
+        "tuple": [(), (1,), (2, 1), (0,), (1, True)],
     }
 
 
@@ -710,8 +729,8 @@ def rule_correspondence(ctx) -> None:
     import ast
 
     rules = ctx.driver.batch([{"verb": "py_rules"}])[0]
-    pools = model_pools()
     rng = ctx.rng("rules")
+    pools = model_pools(ctx.rng("rule-pools"), 6 if ctx.quick else 40)
     cap = 60 if ctx.quick else 600
     reqs, metas = [], []
     for ri, r in enumerate(rules):
@@ -729,13 +748,36 @@ def rule_correspondence(ctx) -> None:
                     impl = {"r": "raised"}
                 reqs.append({"verb": "py_eval", "rule": ri, "which": which, "env": {k: to_val_json(v) for k, v in env.items()}})
                 metas.append((r, which, combo, impl))
+    separated: dict[str, int] = {}
+    sampled = False
     for a, (r, which, combo, impl) in zip(ctx.driver.batch(reqs), metas):
         res.case(("py_eval", r["code"], r["label"], which, repr(combo)))
         res.bump("model_eval_cases")
+        res.bump("model_eval_raised" if impl["r"] == "raised" else "model_eval_value")
         if impl.get("v") == "unrepresentable":
             continue
         if a != impl:
             res.disagree("py_eval", {"rule": f"FURB{r['code']}:{r['label']}", "expr": r[which], "env": repr(combo)}, a, impl)
+        if r["code"] == 161 and which == "old" and not sampled and combo and combo[0] < -1:
+            sampled = True
+            res.sample({"lean rule": f"FURB{r['code']}:{r['label']}", "old": r["old"], "new": r["new"], "env": repr(combo), "model eval(old)": a, "CPython eval(old)": impl})
+    # ---- CPython itself on old vs new: a PROVED rule must not be separated by any NaN-free environment of the sweep (that would mean
+    # the model misrepresents Python in a way the per-expression comparison above did not see); guarded / refuted rows must be
+    for i in range(0, len(metas), 2):
+        (r, _, combo, io), (_, _, _, inew) = metas[i], metas[i + 1]
+        label = f"FURB{r['code']}:{r['label']}"
+        if "NAN" in combo:
+            continue
+        obs = [(x["r"], x.get("truthy") if r["cond_pos"] else x.get("v")) for x in (io, inew)]
+        if obs[0] != obs[1]:
+            separated[label] = separated.get(label, 0) + 1
+            if not r["refuted"] and not r.get("guarded") and separated[label] == 1:
+                res.disagree("rule-sound-vs-cpython", {"rule": label, "old": r["old"], "new": r["new"], "env": repr(combo)}, "old and new agree (Sound)", obs)
+    for r in rules:
+        label = f"FURB{r['code']}:{r['label']}"
+        if (r["refuted"] or r.get("guarded")) and not separated.get(label):
+            res.notes.append(f"{'guarded' if r.get('guarded') else 'refuted'} rule {label}: no sampled environment separates old and new under CPython")
+    res.bump("rules_separated_by_cpython_as_their_refutation_says", sum(1 for r in rules if (r["refuted"] or r.get("guarded")) and separated.get(f"FURB{r['code']}:{r['label']}")))
     # ---- does refurb really propose `new` for `old`?
     lines = PREAMBLE.split("\n")
     spans = []
@@ -758,6 +800,7 @@ def rule_correspondence(ctx) -> None:
         res.case(("rule-proposed", r["code"], r["label"]))
         mine = [x for x in diags if a <= x["line"] <= b and x["code"] == r["code"]]
         label = f"FURB{r['code']}:{r['label']}"
+        res.bump("lean_rules_guarded" if r.get("guarded") else ("lean_rules_refuted" if r["refuted"] else "lean_rules_proved"))
         if not mine:
             if r["refuted"]:
                 res.notes.append(f"refuted variant {label} is no longer proposed by refurb: its refutation theorem is about behaviour that is gone")
